@@ -1,8 +1,12 @@
-(* C06 - apply_formatting.  Statements only.  apply_fmt models AnsiString.apply_formatting after the
-   settings have been scrubbed and given fresh identities (as repaired, known_findings F8 F9). *)
+(* C06 - apply_formatting changes exactly the range, with the documented precedence.
+   Statements only.  apply_fmt models AnsiString.apply_formatting after the settings have been
+   scrubbed and given fresh identities (make_unique=True), as repaired (known_findings F8 F9).
+   Hypotheses: change points strictly increasing (ssorted), no setting object active twice at one
+   index (nodup_active), the new objects not yet in the table (fresh_for) - all part of the
+   reachable-value invariant, see C09.  `active_at (tbl s) k` is what ansi_settings_at(k) reports. *)
 From AS Require Import Base.
 From AS.Model Require Import Table Ops.
-From AS.Proofs Require Import TableProofs BasicProofs.
+From AS.Proofs Require Import TableProofs SliceProofs PadProofs ApplyProofs.
 
 (* the text never changes *)
 Theorem C06_text : forall s new st en top, base (apply_fmt s new st en top) = base s.
@@ -11,12 +15,69 @@ Print Assumptions C06_text.
 
 (* an empty settings list, or an empty slice-normalised range, is a no-op *)
 Theorem C06_noop : forall s new st en top,
-  let len := length (base s) in
-  let i := slice_idx len st 0 in let j := slice_idx len en len in
-  (new = [] \/ len <= i \/ j <= i) -> apply_fmt s new st en top = s.
-Proof.
-  intros s new st en top len i j [-> | H].
-  - apply apply_fmt_noop_settings.
-  - apply apply_fmt_noop_range. apply range_empty_spec. exact H.
-Qed.
+  new = [] \/ range_empty (length (base s)) (slice_idx (length (base s)) st 0)
+                          (slice_idx (length (base s)) en (length (base s))) = true ->
+  apply_fmt s new st en top = s.
+Proof. exact apply_fmt_noop. Qed.
 Print Assumptions C06_noop.
+
+Section C06.
+Variables (s : astr) (new : list setting) (st en : option Z) (top : bool).
+Let len := length (base s).
+Let i := slice_idx len st 0.           (* Python slice rules for negative / too large bounds *)
+Let j := slice_idx len en len.
+Let r := apply_fmt s new st en top.
+Hypothesis Hs : ssorted (tbl s).
+Hypothesis Hnd : nodup_active (tbl s).
+Hypothesis Hfr : fresh_for new (tbl s).
+
+(* characters outside [i, j) keep their settings: the same objects in the same order *)
+Theorem C06_outside : forall k, k < i \/ j <= k -> active_at (tbl r) k = active_at (tbl s) k.
+Proof. apply apply_fmt_outside; assumption. Qed.
+
+Hypothesis Hne : new <> [].
+Hypothesis Hre : range_empty len i j = false.
+
+(* topmost=False: every character inside gains exactly the new settings, BELOW everything it had *)
+Theorem C06_inside_bottom : top = false -> forall k, i <= k < j ->
+  active_at (tbl r) k = new ++ active_at (tbl s) k.
+Proof. apply apply_fmt_inside_bottom; assumption. Qed.
+
+(* topmost=True: every character inside gains exactly the new settings, in one block; what it had
+   before keeps its order around the block (l1 below, l2 above); on the first character of the range,
+   and on each following character for as long as no other setting begins in between, nothing is above
+   the new settings *)
+Theorem C06_inside_top : top = true -> forall k, i <= k < j ->
+  exists l1 l2,
+    active_at (tbl s) k = l1 ++ l2
+    /\ active_at (tbl r) k = l1 ++ new ++ l2
+    /\ (forall x, In x l1 -> In x (active_at (tbl s) i))
+    /\ (k = i -> l2 = [])
+    /\ ((forall kp, In kp (tbl s) -> i < fst kp <= k -> padd (snd kp) = []) -> l2 = []).
+Proof. apply apply_fmt_inside_top; assumption. Qed.
+End C06.
+Print Assumptions C06_outside.
+Print Assumptions C06_inside_bottom.
+Print Assumptions C06_inside_top.
+
+(* the result is again well formed (used by C09): sorted, within bounds, passes the library's own
+   strict self-check, no object active twice, and closed exactly as before *)
+Theorem C06_preserves : forall s new st en top,
+  ssorted (tbl s) -> nodup_active (tbl s) -> fresh_for new (tbl s) ->
+  let r := apply_fmt s new st en top in
+  ssorted (tbl r) /\ nodup_active (tbl r)
+  /\ (keys_le (tbl s) (length (base s)) -> keys_le (tbl r) (length (base s)))
+  /\ (strict_ok (tbl s) = true -> strict_ok (tbl r) = true)
+  /\ final_active (tbl r) = final_active (tbl s).
+Proof.
+  intros s new st en top Hs Hnd Hfr r. repeat split.
+  - apply apply_fmt_sorted; auto.
+  - apply apply_fmt_nodup; auto.
+  - apply apply_fmt_keys; auto.
+  - apply apply_fmt_strict; auto.
+  - apply apply_fmt_final; auto.
+Qed.
+Print Assumptions C06_preserves.
+
+(* non-vacuity: the example of Proofs/ApplyProofs.v satisfies every hypothesis *)
+Example C06_example := ApplyExample.ex_hyps.
